@@ -126,6 +126,37 @@ theorem go_sub_then_add_fuel (capO capO' : Nat → Int) (fuel fuel' : Nat) (w w'
   refine ⟨st, st', d, hr, by rw [hv]; exact hr', hv', hdd, fun i => ?_⟩
   rw [hdn]; simp only; rw [hs, sub_add_cancel]
 
+/-! ## `Vector.Sum` is linear over the results of `AddVec` / `ScaleVec` (three functions in sequence) -/
+
+/-- `s.AddVec(v1, v2)` and then `s.Sum()`: on well-formed operands of equal dimension the sum the Go code returns
+    for the result equals the sum of the two sums it returns for the operands (exact in a field). -/
+theorem go_sum_of_add (capO : Nat → Int) (fuel : Nat) (w : GVector K) (v1 v2 : Vec K)
+    (h1 : WF v1.dim v1.entries) (h2 : WF v2.dim v2.entries)
+    (hd : v1.dim = v2.dim) (hf : v1.entries.length + v2.entries.length ≤ fuel) :
+    ∃ st sa sb sc x y z, Vector_AddVec capO fuel w (toGV v1) (toGV v2) = .ok (st, none) ∧
+      Vector_Sum st.v = .ok (sa, x) ∧ Vector_Sum (toGV v1) = .ok (sb, y) ∧
+      Vector_Sum (toGV v2) = .ok (sc, z) ∧ x = y + z := by
+  obtain ⟨st, out, hr, hv, hdo, hwf, hden⟩ := go_addVec_wf capO fuel w v1 v2 h1 h2 hd hf
+  obtain ⟨sa, ha⟩ := go_vector_sum_eq out hwf
+  obtain ⟨sb, hb⟩ := go_vector_sum_eq v1 h1
+  obtain ⟨sc, hc⟩ := go_vector_sum_eq v2 h2
+  refine ⟨st, sa, sb, sc, _, _, _, hr, by rw [hv]; exact ha, hb, hc, ?_⟩
+  rw [hdo, ← hd, ← Finset.sum_add_distrib]
+  exact Finset.sum_congr rfl (fun i _ => hden i)
+
+/-- `s.ScaleVec(a, v1)` and then `s.Sum()`: the sum of the scaled vector is `a` times the sum of the operand,
+    for every factor (zero included) and every well-formed operand. -/
+theorem go_sum_of_scale (w : GVector K) (a : K) (v1 : Vec K) (al : Bool) (hal : al = true → w = toGV v1)
+    (h : WF v1.dim v1.entries) :
+    ∃ st sa sb x y, Gen.Vector_ScaleVec w a (toGV v1) al = .ok (st, ()) ∧
+      Vector_Sum st.v = .ok (sa, x) ∧ Vector_Sum (toGV v1) = .ok (sb, y) ∧ x = a * y := by
+  obtain ⟨st, out, hr, hv, hdo, hwf, hden⟩ := go_scaleVec_wf w a v1 al hal h
+  obtain ⟨sa, ha⟩ := go_vector_sum_eq out hwf
+  obtain ⟨sb, hb⟩ := go_vector_sum_eq v1 h
+  refine ⟨st, sa, sb, _, _, hr, by rw [hv]; exact ha, hb, ?_⟩
+  rw [hdo, Finset.mul_sum]
+  exact Finset.sum_congr rfl (fun i _ => hden i)
+
 /-- Non-vacuity: operands of equal dimension with enough fuel exist (unsorted on purpose). -/
 example : (⟨4, [⟨2, 1⟩, ⟨0, 3⟩]⟩ : Vec ℚ).dim = (⟨4, [⟨1, 5⟩]⟩ : Vec ℚ).dim ∧
     ([⟨2, 1⟩, ⟨0, 3⟩] : List (Entry ℚ)).length + ([⟨1, 5⟩] : List (Entry ℚ)).length ≤ 3 := by
